@@ -51,7 +51,7 @@ struct Run {
     gates_seen: usize,
 }
 
-fn run_one(refs: &Schema, schema: &s1::S1, docs: &[&str], ch: &mut Chooser, list_len2: bool) -> Run {
+fn run_one(refs: &Schema, schema: &s1::S1, dynamic: Option<&async_graphql::dynamic::Schema>, docs: &[&str], ch: &mut Chooser, list_len2: bool) -> Run {
     let di = ch.any("doc", docs.len());
     let text = docs[di];
     let doc = agv_refgql::parse::parse_exec(text).expect("fixed document parses");
@@ -78,7 +78,11 @@ fn run_one(refs: &Schema, schema: &s1::S1, docs: &[&str], ch: &mut Chooser, list
     wdv.gates = Some(h.clone());
     let wd = Arc::new(wdv);
     let req = Request::new(text).data(wd.clone());
-    let r = sched::run(&h, ch, &RunCfg { policy: Policy::Eager, gate_class: Class::Exhaustive, preempt_class: Class::Dev(3), max_steps: 5000 }, schema.execute(req), &mut |_| {});
+    let cfg = RunCfg { policy: Policy::Eager, gate_class: Class::Exhaustive, preempt_class: Class::Dev(3), max_steps: 5000 };
+    let r = match dynamic {
+        Some(d) => sched::run(&h, ch, &cfg, d.execute(req), &mut |_| {}),
+        None => sched::run(&h, ch, &cfg, schema.execute(req), &mut |_| {}),
+    };
     let gates_seen = r.schedule.len();
     Run {
         doc: di,
@@ -115,12 +119,13 @@ fn run(cx: &Cx) {
         docs.extend_from_slice(DOCS_MORE);
     }
     let faults = 2u32;
+    cx.exhaustive(true);
     // determinism self-test: one recorded schedule replayed twice must give identical observations
     {
         let mut c1 = Chooser::from_choices(&[1, 1, 0, 1]);
-        let a = run_one(&refs, &schema, &docs, &mut c1, true);
+        let a = run_one(&refs, &schema, None, &docs, &mut c1, true);
         let mut c2 = Chooser::from_choices(&[1, 1, 0, 1]);
-        let b = run_one(&refs, &schema, &docs, &mut c2, true);
+        let b = run_one(&refs, &schema, None, &docs, &mut c2, true);
         if a.obs != b.obs || a.schedule != b.schedule {
             return cx.machinery_error("replaying one schedule twice gave different observations: the harness does not own all nondeterminism");
         }
@@ -132,19 +137,30 @@ fn run(cx: &Cx) {
         n: u64,
         reported: bool,
     }
+    let dynamic_schema = match agv_common::dynamic::build(&refs, agv_common::dynamic::Encoding::default()) {
+        Ok(d) => d,
+        Err(e) => return cx.machinery_error(format!("dynamic twin of S1 does not build: {e}")),
+    };
+    let mut total_groups = 0usize;
+    let mut multi_total = 0usize;
+    let mut max_orders_total = 0u64;
+    let mut schedules_total = 0u64;
+    for (flavour, dynamic) in [("static", None), ("dynamic", Some(&dynamic_schema))] {
+    // guards exist only in the derive schema
+    let docs: Vec<&str> = docs.iter().copied().filter(|d| dynamic.is_none() || !d.contains("gnn")).collect();
     let groups: Mutex<HashMap<String, Group>> = Mutex::new(HashMap::new());
     let st = explore(
         &ExploreCfg { bounds: [0, faults, 0, 0], ..Default::default() },
-        &|ch: &mut Chooser| run_one(&refs, &schema, &docs, ch, true),
+        &|ch: &mut Chooser| run_one(&refs, &schema, dynamic, &docs, ch, true),
         &|_, r: Run| {
             cx.eval();
             cx.add_traces(1);
             cx.add_transitions(r.schedule.len() as u64);
             let text = docs[r.doc];
             let case = json!({"query": text, "world": table_json(&r.table), "schedule": r.schedule, "choices": r.choices});
-            let key = format!("{}|{:?}", r.doc, r.table);
+            let key = format!("{}|{:?}", docs[r.doc], r.table);
             if r.end != End::Done || r.obs.is_none() {
-                cx.violation(Violation::new(if r.end == End::Deadlock { "deadlock" } else { "no-termination" }, format!("execution ended {:?} after schedule {:?}", r.end, r.schedule), case).key("flavour", "static"));
+                cx.violation(Violation::new(if r.end == End::Deadlock { "deadlock" } else { "no-termination" }, format!("execution ended {:?} after schedule {:?}", r.end, r.schedule), case).key("flavour", flavour));
                 return;
             }
             let obs = r.obs.unwrap();
@@ -158,7 +174,7 @@ fn run(cx: &Cx) {
                     if obs.data != r.ref_data {
                         // data must match the reference in every order (unique whatever gets cancelled)
                         cx.violation(
-                            Violation::new("data-differs-from-reference", format!("expected data {} got {} (errors {:?})", r.ref_data, obs.data, obs.error_keys()), case.clone()).key("flavour", "static"),
+                            Violation::new("data-differs-from-reference", format!("expected data {} got {} (errors {:?})", r.ref_data, obs.data, obs.error_keys()), case.clone()).key("flavour", flavour),
                         );
                     }
                     g.insert(key, Group { first: view, sched0: r.schedule.clone(), n: 1, reported: false });
@@ -178,7 +194,7 @@ fn run(cx: &Cx) {
                                 ),
                                 case,
                             )
-                            .key("flavour", "static"),
+                            .key("flavour", flavour),
                         );
                     }
                 }
@@ -194,20 +210,26 @@ fn run(cx: &Cx) {
         cx.machinery_error(d);
     }
     let g = groups.lock().unwrap();
-    let multi = g.values().filter(|x| x.n > 1).count();
-    let max_orders = g.values().map(|x| x.n).max().unwrap_or(0);
+    total_groups += g.len();
+    multi_total += g.values().filter(|x| x.n > 1).count();
+    max_orders_total = max_orders_total.max(g.values().map(|x| x.n).max().unwrap_or(0));
+    schedules_total += st.executions;
+    if st.capped {
+        cx.exhaustive(false);
+    }
+    }
+    let (multi, max_orders) = (multi_total, max_orders_total);
     cx.rule(&format!(
         "case = (document, world, completion order). {} fixed documents over S1 (sibling scalars, nested objects, lists of objects with 2 items, interface/union lists, guards, nested lists) × every world with ≤ {faults} failing resolvers/guards among the visited positions × EVERY order of opening the resolver gates (a gate exists once its resolver started; cancelled resolvers' gates disappear). Non-trivial = executions with ≥ 2 gate openings, distinct by (document, world, schedule). states = (document, world) groups, transitions = gate openings, traces = executions of the real executor.",
         docs.len()
     ));
-    cx.exhaustive(!st.capped);
-    cx.extra("groups", json!(g.len()));
+    cx.extra("groups", json!(total_groups));
     cx.extra("groups_with_several_orders", json!(multi));
     cx.extra("max_orders_in_a_group", json!(max_orders));
-    cx.extra("schedules", json!(st.executions));
+    cx.extra("schedules", json!(schedules_total));
     cx.extra("fault_bound", json!(faults));
     cx.assume("S1's resolvers are deterministic functions of (path, world); the scheduler is the only source of completion order (one schedule replayed twice gives identical observations, checked at start-up)");
-    cx.assume("static flavour; the dynamic flavour is added with the dynamic twin");
+    cx.assume("both flavours: S1 (derive) and its dynamic twin");
 }
 
 fn replay(case: &J) -> String {
